@@ -531,10 +531,21 @@ def m_find_char(ex, args, callee):
     i = s.find(args[1]); return ex.some(len(s[:i].encode())) if i >= 0 else ex.none()
 
 
+StrLen = z3.Function('str_len', StrSort, z3.IntSort())      # byte length of an opaque string (>= 0; nothing else is known about it)
+
+
 def str_len(s):
     if isinstance(s, str): return len(s.encode())
     if isinstance(s, SB): return len(s.bs)
+    if isinstance(s, SymStr): return StrLen(s.term)
     raise Unsupported(f'length of {s!r}')
+
+
+def m_str_len(ex, args, callee):
+    s = dv(args[0])
+    n = str_len(s)
+    if isinstance(s, SymStr): ex.assume(n >= 0)
+    return n
 
 
 def need_concrete_str(v):
@@ -547,6 +558,19 @@ def m_eq_ignore_ascii_case_concrete(ex, args, callee):
     if not (isinstance(a, str) and isinstance(b, str)): raise Unsupported(f'{callee}: string content is not concrete')
     low = lambda s: ''.join(chr(ord(c) + 32) if 'A' <= c <= 'Z' else c for c in s)
     return low(a) == low(b)
+
+
+def m_u8_class(ex, args, pred):
+    b = dv(args[0])
+    if isinstance(b, int): b = z3.BitVecVal(b, 8)
+    if not z3.is_bv(b): raise Unsupported(f'byte class of {b!r}')
+    return pred(b)
+
+
+def _trim_start_matches(s, p):
+    if not isinstance(p, str): raise Unsupported('trim_start_matches: pattern is not concrete')
+    while p and s.startswith(p): s = s[len(p):]
+    return s
 
 
 def need_str(f):
@@ -749,10 +773,16 @@ BASE_MODELS = [
     (r'str>::starts_with::<(char|&str)>$', need_str(lambda s, c: s.startswith(c))), (r'str>::ends_with::<char>$', need_str(lambda s, c: s.endswith(c))),
     (r'str>::find::<char>$', m_find_char), (r'str>::to_uppercase$', need_str(lambda s: s.upper())),
     (r'str>::eq_ignore_ascii_case$', lambda ex, a, c: m_eq_ignore_ascii_case_concrete(ex, a, c)),
+    (r'^(std::string::)?String::new$', lambda ex, a, c: ''),
+    (r'str>::trim_start_matches::<&str>$', need_str(lambda s, p: _trim_start_matches(s, p))),
+    (r'u8::is_ascii_control$|<impl u8>::is_ascii_control$', lambda ex, a, c: m_u8_class(ex, a, lambda b: z3.Or(z3.ULT(b, 32), b == 127))),
+    (r'u8::is_ascii_whitespace$|<impl u8>::is_ascii_whitespace$', lambda ex, a, c: m_u8_class(ex, a, lambda b: z3.Or(b == 32, b == 9, b == 10, b == 12, b == 13))),
+    (r'u8::is_ascii_graphic$|<impl u8>::is_ascii_graphic$', lambda ex, a, c: m_u8_class(ex, a, lambda b: z3.And(z3.UGE(b, 33), z3.ULE(b, 126)))),
+    (r'u8::is_ascii$|<impl u8>::is_ascii$', lambda ex, a, c: m_u8_class(ex, a, lambda b: z3.ULT(b, 128))),
     (r'str>::to_lowercase$', need_str(lambda s: s.lower())),
     (r'(str|String) as Index<', m_str_index),
-    (r'<impl str>::is_empty$|String::is_empty$', lambda ex, a, c: str_len(dv(a[0])) == 0),
-    (r'<impl str>::len$|String::len$', lambda ex, a, c: str_len(dv(a[0]))),
+    (r'<impl str>::is_empty$|String::is_empty$', lambda ex, a, c: m_str_len(ex, a, c) == 0),
+    (r'<impl str>::len$|String::len$', m_str_len),
     (r'Argument::<.*>::new_\w+(::<.*>)?$', m_fmt_argument),
     (r'Arguments::<.*>::(new|from_str|new_const|new_v1)', m_fmt_arguments),
     (r'^core::fmt::rt::', lambda ex, a, c: Opaque('fmt')),
